@@ -22,6 +22,7 @@ import (
 	"time"
 
 	"verif/core"
+	"verif/deriveref"
 	"verif/harness"
 )
 
@@ -46,6 +47,13 @@ type Spec struct {
 	PerFile  int
 	GoVer    string
 	NoRef    bool // no reference side (C07/C11-only families): Ref = Out
+	// DeriveRef: the reference package is derived from the S files by verif/deriveref instead of
+	// being printed by the generator (hand-written and template families).
+	DeriveRef bool
+	// SFiles: complete extra source files (name -> content) of the S package, e.g. hand-written corpus
+	SFiles map[string]string
+	// Race: link the worker with the race detector (C14's free-running supplement)
+	Race bool
 }
 
 type Reject struct {
@@ -138,7 +146,10 @@ func TreeHash() string {
 func (s *Spec) key() string {
 	h := sha1.New()
 	io.WriteString(h, TreeHash())
-	fmt.Fprintf(h, "%s|%v|%v|%s|%s|%s|%d|%s|%v\n", s.Name, s.SImports, s.RImports, s.SExtra, s.RExtra, s.CoImport, s.PerFile, s.GoVer, s.NoRef)
+	fmt.Fprintf(h, "%s|%v|%v|%s|%s|%s|%d|%s|%v|%v|%v\n", s.Name, s.SImports, s.RImports, s.SExtra, s.RExtra, s.CoImport, s.PerFile, s.GoVer, s.NoRef, s.DeriveRef, s.Race)
+	for _, k := range sortedKeys(s.SFiles) {
+		fmt.Fprintf(h, "%s\x00%s\n", k, s.SFiles[k])
+	}
 	for _, p := range s.Progs {
 		fmt.Fprintf(h, "%s\x00%s\x00%s\x00%s\x00%v\n", p.ID, p.Key, p.S, p.R, p.Proc)
 	}
@@ -404,9 +415,16 @@ func writeFiles(dir, pkg string, header string, progs []Prog, text func(Prog) st
 		}
 		var sb strings.Builder
 		sb.WriteString(header)
+		any := false
 		for _, p := range progs[i:j] {
+			if text(p) != "" {
+				any = true
+			}
 			sb.WriteString(text(p))
 			sb.WriteString("\n")
+		}
+		if !any {
+			continue
 		}
 		os.WriteFile(filepath.Join(dir, fmt.Sprintf("f%04d.go", i/perFile)), []byte(sb.String()), 0o644)
 	}
@@ -468,7 +486,10 @@ func build(s *Spec, work string) (*Meta, error) {
 	if s.SExtra != "" {
 		os.WriteFile(filepath.Join(src, "extra.go"), []byte(s.SExtra), 0o644)
 	}
-	if !s.NoRef {
+	for name, content := range s.SFiles {
+		os.WriteFile(filepath.Join(src, name), []byte(content), 0o644)
+	}
+	if !s.NoRef && !s.DeriveRef {
 		writeFiles(ref, "ref", rHeader, s.Progs, func(p Prog) string { return p.R }, perFile)
 		if s.RExtra != "" {
 			os.WriteFile(filepath.Join(ref, "extra.go"), []byte(s.RExtra), 0o644)
@@ -478,10 +499,14 @@ func build(s *Spec, work string) (*Meta, error) {
 	// 1. native build of S (ordinary Go thanks to the stubs) and R; programs that do not
 	// type-check as plain Go are outside the quantifier and are dropped (counted).
 	pkgs := []string{"./src/"}
-	if !s.NoRef {
+	if !s.NoRef && !s.DeriveRef {
 		pkgs = append(pkgs, "./ref/")
 	}
+	derived := false
 	for round := 0; ; round++ {
+		if s.DeriveRef && !derived && round > 0 {
+			// derive only once the S package type-checks
+		}
 		_, stderr, code := run(work, 5*time.Minute, "go", append([]string{"build", "-gcflags=-e"}, pkgs...)...)
 		if code == 0 {
 			break
@@ -502,6 +527,15 @@ func build(s *Spec, work string) (*Meta, error) {
 			}
 		}
 	}
+	if s.DeriveRef && !s.NoRef {
+		if err := deriveref.Dir(work, src, ref, "ref", goEnv); err != nil {
+			return nil, err
+		}
+		if _, stderr, code := run(work, 5*time.Minute, "go", "build", "-gcflags=-e", "./ref/"); code != 0 {
+			return nil, fmt.Errorf("derived reference package does not build:\n%s", tail(stderr, 2000))
+		}
+	}
+	_ = derived
 	lap("native_build")
 
 	// 2. go-co through the verif hook: unoptimised stage kept, per-file panics isolated.
@@ -692,7 +726,11 @@ func build(s *Spec, work string) (*Meta, error) {
 	if len(m.Registry) > 0 {
 		os.MkdirAll(filepath.Join(work, "main"), 0o755)
 		os.WriteFile(filepath.Join(work, "main", "main.go"), []byte(sb.String()), 0o644)
-		_, stderr, code = run(work, 5*time.Minute, "go", "build", "-ldflags=-s -w", "-o", "worker", "./main")
+		linkArgs := []string{"build", "-ldflags=-s -w", "-o", "worker", "./main"}
+		if s.Race {
+			linkArgs = []string{"build", "-race", "-o", "worker", "./main"}
+		}
+		_, stderr, code = run(work, 10*time.Minute, "go", linkArgs...)
 		if code != 0 {
 			return nil, fmt.Errorf("linking the worker failed:\n%s", tail(stderr, 2000))
 		}
@@ -898,4 +936,18 @@ func dropUnusedImports(work, stderr string) bool {
 		os.WriteFile(f, []byte(strings.Join(lines, "\n")), 0o644)
 	}
 	return len(byFile) > 0
+}
+
+func sortedKeys(m map[string]string) []string {
+	ks := make([]string, 0, len(m))
+	for k := range m {
+		ks = append(ks, k)
+	}
+	sort.Strings(ks)
+	return ks
+}
+
+// RunRaw runs the worker of a built shard with the given arguments.
+func RunRaw(b *Built, timeout time.Duration, args ...string) (stdout, stderr string, code int) {
+	return run(b.Dir, timeout, filepath.Join(b.Dir, "worker"), args...)
 }
